@@ -70,6 +70,11 @@ CLAIMED = {
          'was read; in every block codec worker each access to the caller buffer is proven (interval / symbolic upper bounds, element size as unit, remaining-request idiom) to lie inside the '
          'requested items. One known finding (VOX odd-count overflow) is listed. Content of delivered items is not decided.',
          'sibling fact sheets + loop template obligations + guarded-access bound analysis over clang CFG'),
+ 'C08': ('DESIGN.md §4 C08',
+         'Per (whence, open mode, offset class) sf_seek updates exactly the documented pointer set and really seeks when both pointers must move; all 18 wrappers re-seek to their own pointer when '
+         'the previous operation was of the other kind and RDWR opens start writing at the end; SFC_FILE_TRUNCATE seeks, stores the frame count and truncates at the byte position taken after the '
+         'seek, read-only handles refused; WAV RDWR close truncates only a stale tail and rewrites the header afterwards. Operation-sequence semantics are not decided.',
+         'partial-evaluation decision table vs documented oracle; required-fact checks on normalised wrapper sheets; dominance rules'),
 }
 REASONS = {}
 DEFAULT_REASON = 'check not built yet (work in progress); see DESIGN.md'
